@@ -54,6 +54,22 @@ StructFails(r) ==
                QClose(r.f[i], lo, Prec)
       THEN {} ELSE {"ValueFormula"})
 
+(* ---- C10: -1 at M[2] is the global minimum over the whole box, decided from the parameters ----                      *)
+(* outside all balls f = ||x - T||^2 >= 0 > -1.  Inside ball i, with n = ||x - M_i|| in [0, rho], c the cosine of the      *)
+(* angle between x - M_i and T - M_i, d = ||T - M_i||, a = d^2 + f_1 - f_i:   f - f_i = n^2 (A n + B),                     *)
+(*   A = 2 d c / rho^2 - 2 a / rho^3,   B = 1 - 4 d c / rho + 3 a / rho^2,   A rho + B = 1 - 2 d c / rho + a / rho^2.     *)
+(* A n + B is affine in n and in c, so it is >= 0 on [0, rho] x [-1, 1] iff it is at the four corners.  Then f >= f_i on   *)
+(* ball i, f_i >= -1 with equality only for the global minimiser: the declared optimum is the global minimum.             *)
+BasinFails(r) ==
+  {"BasinBelowItsMinimum" : i \in {j \in 2..NMin(r) :
+      LET rho == r.rho[j]
+          dlo == NormLo(r.M[1], r.M[j])  dhi == NormHi(r.M[1], r.M[j])
+          a == QSub(QAdd(Dist2(r.M[1], r.M[j]), r.f[1]), r.f[j])
+          B(dc)  == QAdd(QSub(Q1, QDivR(QMul("4", dc), rho)), QDivR(QMul("3", a), QSq(rho)))
+          E(dc)  == QAdd(QSub(Q1, QDivR(QMul(Q2, dc), rho)), QDivR(a, QSq(rho)))
+          slack == QNeg(Prec)
+      IN ~(/\ QLeq(slack, B(dhi)) /\ QLeq(slack, B(QNeg(dlo))) /\ QLeq(slack, E(dhi)) /\ QLeq(slack, E(QNeg(dlo))))}}
+
 (* ---- the D-type function as a case analysis; returns <<kind, lo, hi>> enclosing the value ---- *)
 BallOf(r, y) ==   \* first ball (code order: index 1..9, here 2..10) whose closed ball contains y; 0 if none
   LET S == {i \in 2..NMin(r) : QLeq(Dist2(r.M[i], y), QSq(r.rho[i]))}
@@ -120,7 +136,7 @@ Next == /\ tpos <= Len(Recs)
         /\ \E r \in {Recs[tpos]} :
              IF WellFormed(r)
              THEN PrintT(<<"GKLS", [dim |-> r.dim, nf |-> r.nf,
-                                    failed |-> StructFails(r) \cup EvalFails(r) \cup ContFails(r) \cup GoldenFails(r)
+                                    failed |-> StructFails(r) \cup EvalFails(r) \cup ContFails(r) \cup GoldenFails(r) \cup BasinFails(r)
                                                \cup (IF r.raised THEN {"EvaluationRaises"} ELSE {}),
                                     points |-> Len(r.pts), pairs |-> Len(r.pairs), kinds |-> Kinds(r)]>>)
              ELSE PrintT(<<"GKLS", [dim |-> r.dim, nf |-> r.nf, failed |-> {"Malformed"} \cup (IF r.raised THEN {"EvaluationRaises"} ELSE {}),
